@@ -69,11 +69,30 @@ if rc == 0:
             pk = set(k.split("::")[0] for k in got)
             return sorted(t for t in stable if t.split("::")[0] in pk and got.get(t) != "pass")
         bad = stable_failures("./...")
+        # the second module of the baseline (218 of the 811 stable tests live there)
+        def stable_failures_it():
+            p = subprocess.run("go test -mod=mod -json -vet=off -count=1 -timeout 25m ./...", cwd=os.path.join(wt, "integration_tests"), env=env, shell=True,
+                               stdout=subprocess.PIPE, stderr=subprocess.STDOUT, text=True, timeout=3600)
+            got = {}
+            for l in p.stdout.splitlines():
+                if l.startswith("{"):
+                    try:
+                        e = json.loads(l)
+                    except Exception:
+                        continue
+                    if e.get("Test") and e.get("Action") in ("pass", "fail", "skip"):
+                        got[e["Package"] + "::" + e["Test"]] = e["Action"]
+            return sorted(t for t in stable if t.startswith("integration_tests") and got.get(t) != "pass")
+        bad_it = stable_failures_it()
+        if bad_it:
+            again = set(stable_failures_it())
+            bad_it = [t for t in bad_it if t in again]
+        res["integration_fail_lines"] = bad_it[:20]
         if bad:
             # timing-sensitive tests can flake under load: re-run the affected packages once
             pkgs = " ".join(sorted(set("./" + t.split("::")[0].replace("github.com/tikv/client-go/v2/", "") for t in bad)))
             bad = stable_failures(pkgs)
-        res["unit_pass"] = not bad
+        res["unit_pass"] = not bad and not bad_it
         res["unit_seconds"] = int(time.time() - t0)
         res["unit_fail_lines"] = bad[:20]
 run("git checkout -- .")
